@@ -462,6 +462,26 @@ pub fn run_c12(tier: Tier) -> Report {
             }
         }
     }
+    if tier.thorough() {
+        // the same pairs in standard mode and in Sorenson v1, with a four-vector target, and with the
+        // predictor supplied by a four-vector neighbour
+        let ref2s = noise_intra(Hdr::Std(StdHdr::custom(32, 16, false, 0, 5)), seed);
+        let ref2v = noise_intra(shdr(32, 16, 0, 0, 5, 1), seed);
+        for p in -32..=31i32 {
+            for d in -32..=31i8 {
+                for comp in 0..2usize {
+                    let pv: (i8, i8) = if comp == 0 { (p as i8, 0) } else { (0, p as i8) };
+                    let dv: (i8, i8) = if comp == 0 { (d, 0) } else { (0, d) };
+                    cases.push(vec![ref2s.clone(), Pic { hdr: Hdr::Std(StdHdr::custom(32, 16, true, 1, 5)), mbs: vec![Mb::inter(pv), Mb::inter(dv)] }]);
+                    let four = |first: (i8, i8)| Mb::Coded { kind: Kind::Inter4V, dquant: 0, mvd: vec![first, (0, 0), (0, 0), (0, 0)], blocks: Default::default() };
+                    // four-vector target: block 0 codes d, the other blocks code zero differentials
+                    cases.push(vec![ref2v.clone(), Pic { hdr: shdr(32, 16, 1, 1, 5, 1), mbs: vec![Mb::inter(pv), four(dv)] }]);
+                    // four-vector neighbour: all four of its vectors end up equal to p
+                    cases.push(vec![ref2v.clone(), Pic { hdr: shdr(32, 16, 1, 1, 5, 1), mbs: vec![four(pv), Mb::inter(dv)] }]);
+                }
+            }
+        }
+    }
     r.run("predictor-differential-pairs", &cases);
     rep.add_nontrivial(cases.len() as u64);
 
